@@ -20,6 +20,7 @@ from python_minifier.rename import (
     rename_literals,
     resolve_names
 )
+from python_minifier.rename.util import is_only_declared
 from python_minifier.transforms.combine_imports import CombineImports
 from python_minifier.transforms.constant_folding import FoldConstants
 from python_minifier.transforms.remove_annotations import RemoveAnnotations
@@ -161,6 +162,11 @@ def minify(
 
     bind_names(module)
     resolve_names(module)
+
+    for binding in module.bindings:
+        if binding.name in ['exec', 'eval', 'locals', 'globals', 'vars'] and is_only_declared(binding):
+            # 'global eval' without an assignment anywhere in the module still means the builtin
+            module.tainted = True
 
     if remove_builtin_exception_brackets and not module.tainted:
         remove_no_arg_exception_call(module)
